@@ -10,10 +10,11 @@ use lsp_types::{
     UnregistrationParams,
 };
 use serde::de::DeserializeOwned;
-use tokio::{
-    select,
-    sync::{Mutex, oneshot},
-};
+#[cfg(emmyluals_emmylua_analyzer_rust_verif)]
+use crate::verif_lock::Mutex;
+#[cfg(not(emmyluals_emmylua_analyzer_rust_verif))]
+use tokio::sync::Mutex;
+use tokio::{select, sync::oneshot};
 use tokio_util::sync::CancellationToken;
 
 pub struct ClientProxy {
